@@ -10,7 +10,7 @@ for line in open(sys.argv[1]):
     blocks[(f, int(l1), int(l2), int(n))] += int(cnt)
 per = collections.defaultdict(lambda: [0, 0, []])
 for (f, l1, l2, n), cnt in sorted(blocks.items()):
-    if f.endswith(".pb.go") or "/benchhelper/" in f or "/polyfit" in f: continue
+    if f.endswith(".pb.go") or "/benchhelper/" in f or "/polyfit" in f or "verif/harness" in f: continue
     per[f][0] += n
     if cnt == 0:
         per[f][1] += n; per[f][2].append((l1, l2))
